@@ -11,6 +11,7 @@ CONSTANTS
   TrOnly = TRUE
   AxisBy = "dims"
   Memo = FALSE
+  ClampBy = "dim"
   RangeBy = "coords"
   LookupBy = "search"
   StepPrec = "step"
